@@ -199,6 +199,35 @@ pub fn run(ctx: &mut Ctx) {
             let pos = r.usize(trace.len() + 1);
             trace.insert(pos, TFrame { at_ms: scenario::T0 + i as u64, conn: usize::MAX, frame: f });
         }
+        // a sixth of the traces come from a trunk or mirror port: (some of) their Ethernet frames
+        // carry an 802.1Q / 802.1ad tag in front of the EtherType.  Whatever the analyzers make
+        // of such frames, the unified one must make the same of them as the protocol analyzers.
+        let vlan_mode = match t % 6 {
+            1 => 1 + r.below(3),
+            _ => 0,
+        };
+        if vlan_mode > 0 {
+            for f in trace.iter_mut() {
+                let b = &mut f.frame;
+                let is_eth_ip = b.len() > 14 && ((b[12] == 0x08 && b[13] == 0x00) || (b[12] == 0x86 && b[13] == 0xdd));
+                if !is_eth_ip || (vlan_mode == 2 && r.chance(1, 2)) {
+                    continue;
+                }
+                let tpid: [u8; 2] = if vlan_mode == 3 { [0x88, 0xa8] } else { [0x81, 0x00] };
+                let tci = [(r.u8() & 0xef), r.u8()];
+                let mut tag = vec![tpid[0], tpid[1], tci[0], tci[1]];
+                if vlan_mode == 3 {
+                    // 802.1ad outer tag followed by an 802.1Q inner tag
+                    tag.extend_from_slice(&[0x81, 0x00, 0x00, 1 + r.u8() % 200]);
+                }
+                let tail = b.split_off(12);
+                b.extend_from_slice(&tag);
+                b.extend_from_slice(&tail);
+            }
+        }
+        if vlan_mode > 0 {
+            ctx.bucket(&format!("vlan-tagged-trace/mode{vlan_mode}"));
+        }
         let started = std::time::Instant::now();
 
         // ---- reference: the three protocol analyzers, packet by packet
@@ -314,7 +343,7 @@ pub fn run(ctx: &mut Ctx) {
                         json!({"trace": t, "packet": i, "connections": nconn, "capacity": cap, "config": format!("tcp={tcp_on} http={http_on} tls={tls_on} matcher={m_on} db={with_db}"), "frame_hex": hex(&f.frame), "problems": problems})
                     });
                     if !want.is_empty() {
-                        ctx.bucket(&format!("{}t{}h{}l{}m{}d{}/{}", if cap == nconn { "tight/" } else { "" }, *tcp_on as u8, *http_on as u8, *tls_on as u8, *m_on as u8, with_db as u8, want.iter().map(|x| x.name).collect::<Vec<_>>().join("+")));
+                        ctx.bucket(&format!("{}{}t{}h{}l{}m{}d{}/{}", if vlan_mode > 0 { "vlan/" } else { "" }, if cap == nconn { "tight/" } else { "" }, *tcp_on as u8, *http_on as u8, *tls_on as u8, *m_on as u8, with_db as u8, want.iter().map(|x| x.name).collect::<Vec<_>>().join("+")));
                     }
                 }
             }
@@ -333,6 +362,7 @@ pub fn spec() -> PropSpec {
         shards: super::shards_16,
         rule: "seeded traces (handshakes with timestamps, HTTP/1.x and HTTP/2 exchanges, ClientHellos, garbage/truncated connections, plus injected frames: random bytes, invalid flags, non-TCP, truncated, fragments, Fast Open SYNs carrying a ClientHello or a request; connection capacity 256 or exactly the number of connections) are fed packet by packet, with identical virtual arrival times, to the TCP and HTTP analyzers (own state) and the stateless TLS analysis, and to the unified analyzer in each of the 16 switch combinations with and without database; for every packet all reference analyzers accept, the unified result must contain exactly the enabled protocols' fields with identical raw parts, identical labels/qualities when matching is on and 'disabled' qualities without labels when it is off; a bucket is a distinct (configuration, set of fields present) pair",
         assumptions: &[
+            "a sixth of the traces carry 802.1Q / 802.1ad tags on all or half of their Ethernet frames; whatever the protocol analyzers make of a tagged frame is the expectation for the unified one",
             "packets that some protocol analyzer rejects are not compared (the property is conditioned on acceptance); the HTTP diagnosis field is not judged when matching is disabled",
             "the unified analyzer applies HTTP, then TCP, then TLS analysis and stops at the first error; the reference feeds the TCP tracker only when HTTP analysis accepted the packet, mirroring that order",
             "traces are far shorter than the TTLs; slower ones are discarded as inconclusive",
